@@ -249,7 +249,7 @@ func c05Source(c *c05Case, fi int, long bool) string {
 		for _, a := range inc.Attrs {
 			switch a.F {
 			case "static":
-				fmt.Fprintf(&as, ` %s="%s"`, a.N, a.S)
+				fmt.Fprintf(&as, ` %s="%s"`, a.N, strings.ReplaceAll(a.S, `"`, "&quot;"))
 			case "interp":
 				fmt.Fprintf(&as, ` %s="%s{{ %s }}%s"`, a.N, a.S, a.R, a.P)
 			case "bound":
